@@ -64,7 +64,7 @@ type scriptCase struct {
 
 func init() {
 	evid.Reg("script", checkScript)
-	evid.Tests(evid.Spec{Name: "TestPropScripts", Kind: "rapid", Quick: 640, Thorough: 8000, QuickShards: 16, ThoroughShards: 16})
+	evid.Tests(evid.Spec{Name: "TestPropScripts", Kind: "rapid", Quick: 640, Thorough: 5000, QuickShards: 16, ThoroughShards: 16})
 	evid.Commands("obiscript")
 	evid.Note("rule_scripts", "obiscript -S <generated Lua script>: worker() = predicate (none / sequence:len() >= L / annotation rank % M < K) + answer for a rejected record (return nil / bare return / falling off the end) + action on a selected one (the sequence / renamed+annotated sequence / BioSequenceSlice of 0..3 sequences built with push and subsequence), optional begin()/finish() hooks and a shared obicontext counter; 1..3 generated FASTA/FASTQ files from 0 records up to 30000..100000 records (quick; ..250000 thorough) with rejection rates 0..100 %, --max-cpu 1..16, --batch-size, push jitter. Oracle: the harness evaluates the same predicate/action on its own copy of the records: stdout ids and nucleotides = expected list in input order, exit 0, terminates. Non-trivial = the script rejects, renames or multiplies at least one record and the input spans several batches. Distinct = hash of the whole case.")
 }
